@@ -114,6 +114,8 @@ pub struct World {
     pub outcomes_after_roundtrip: u64,
     /// failures at sites that belong to other properties only and do not desynchronise the model: counted, the case goes on
     pub off_soft: std::cell::RefCell<Vec<String>>,
+    /// number of tracers of the master key (2 = tracing level 1, what setup() creates)
+    pub n_tracers: usize,
 }
 
 fn dnf_str(dnf: &[Conj]) -> String {
@@ -160,6 +162,7 @@ impl World {
             injected_roundtrip_at: None,
             outcomes_after_roundtrip: 0,
             off_soft: std::cell::RefCell::new(vec![]),
+            n_tracers: 2,
         };
         // learn the bytes of the initial broadcast secret
         if let Ok(b) = ser(&w.msk) {
@@ -172,6 +175,37 @@ impl World {
             }
         }
         Ok(w)
+    }
+
+    /// Append `extra` tracers to the (still user-less) master key through its serialized form:
+    /// the API only creates tracing level 1, higher levels are reachable by deserialization.
+    pub fn raise_tracing_level(&mut self, extra: u8) -> Step {
+        if extra == 0 {
+            return Ok(());
+        }
+        let b = self.snapshot_msk()?;
+        let mut wm = match WMsk::decode(&b) {
+            Ok(w) => w,
+            Err(e) => return self.fail(&["C13"], "codec-cannot-decode-msk", e),
+        };
+        for k in 0..extra as usize {
+            let t = wm.tracers[k % wm.tracers.len()].clone();
+            wm.tracers.push(t);
+        }
+        self.msk = match de(&wm.encode()) {
+            Ok(m) => m,
+            Err(e) => return self.fail(&["C13", "C14"], "higher-tracing-level-msk-rejected", e),
+        };
+        self.n_tracers = wm.tracers.len();
+        match self.msk.mpk() {
+            Ok(mpk) => {
+                let mm = self.m.mpk();
+                self.mpks = vec![(mpk, mm)];
+            }
+            Err(e) => return self.fail(&["C13", "C09"], "mpk-derivation-failed", short_err(&e)),
+        }
+        self.log(format!("master key given {} tracers through its serialized form", self.n_tracers));
+        Ok(())
     }
 
     pub fn count(&mut self, k: &'static str) {
@@ -354,8 +388,8 @@ impl World {
         if wm.users.len() != self.m.users.len() {
             return self.soft(&["C17", "C13", "C10"], "msk-user-count", format!("MSK registers {} user ids, model {}", wm.users.len(), self.m.users.len()));
         }
-        if wm.tracers.len() != 2 {
-            return self.soft(&["C17", "C13"], "msk-tracer-count", format!("MSK has {} tracers, setup() promises tracing level 1 (2 tracers)", wm.tracers.len()));
+        if wm.tracers.len() != self.n_tracers {
+            return self.soft(&["C17", "C13"], "msk-tracer-count", format!("MSK has {} tracers, expected {}", wm.tracers.len(), self.n_tracers));
         }
         if wm.signing_key.is_none() {
             return self.soft(&["C08", "C13"], "msk-no-signing-key", "MSK has no signing key".into());
@@ -1124,7 +1158,7 @@ impl World {
                 _ => "err:unknown-name-in-policy",
             });
         }
-        self.mismatch("encaps", &e, r.is_ok(), &errtxt(&r), &["C01", "C03", "C06"], &["C06"])?;
+        self.mismatch("encaps", &e, r.is_ok(), &errtxt(&r), &["C01", "C03", "C06", "C11"], &["C06"])?;
         if let (Ok((secret, enc)), Ok((targets, hybrid))) = (r, me) {
             // flavour / size [C11]
             let bytes = match ser(&enc) {
@@ -1145,8 +1179,8 @@ impl World {
             if wx.encs.len() != targets.len() {
                 return self.soft(&["C11", "C01", "C13"], "xenc-target-count", format!("encapsulation for {} carries {} components, {} targets expected", dnf_str(dnf), wx.encs.len(), targets.len()));
             }
-            if bytes.len() != WXEnc::formula_len(2, hybrid, targets.len()) {
-                return self.soft(&["C11", "C13"], "xenc-size-formula", format!("encapsulation size {} differs from the documented formula {}", bytes.len(), WXEnc::formula_len(2, hybrid, targets.len())));
+            if bytes.len() != WXEnc::formula_len(self.n_tracers, hybrid, targets.len()) {
+                return self.soft(&["C11", "C13"], "xenc-size-formula", format!("encapsulation size {} differs from the documented formula {}", bytes.len(), WXEnc::formula_len(self.n_tracers, hybrid, targets.len())));
             }
             if enc.count() != targets.len() {
                 return self.soft(&["C13", "C18"], "xenc-count-accessor", "XEnc::count() differs from the number of targets".into());
